@@ -72,9 +72,10 @@ TRound == /\ IsEvent("round")
                  R1 == Ev.obs.ready
              IN  Expect(/\ RoundFrame(jobs, waiting, ready, J1, W1, R1)
                         /\ RoundOK(jobs, waiting, ready, J1, W1, R1),
-                        [frameKept |-> RoundFrame(jobs, waiting, ready, J1, W1, R1),
-                         brokenLimits |-> BrokenLimits(jobs, ready, J1, R1),
-                         failedOrDroppedAlthoughOnlyHeadroomWasMissing |-> BrokenRetry(jobs, waiting, J1, W1)])
+                        \* explain mode: which clauses this round breaks (all empty / TRUE when it is fine)
+                        [roundTouchedOnlyWaitingJobs |-> RoundFrame(jobs, waiting, ready, J1, W1, R1),
+                         limitsExceededByThisRound |-> BrokenLimits(jobs, ready, J1, R1),
+                         jobsFailedOrDroppedAlthoughOnlyHeadroomWasMissing |-> BrokenRetry(jobs, waiting, J1, W1)])
           /\ (Diag => IF ModelAgrees(JobsOf(Ev.obs), WaitOf(Ev.obs)) THEN TRUE
                        ELSE PrintT(<<"DIAG round differs from the transcription", seg, l>>) /\ FALSE)
           /\ jobs' = JobsOf(Ev.obs) /\ waiting' = WaitOf(Ev.obs) /\ ready' = Ev.obs.ready
